@@ -40,7 +40,7 @@ def run(ctx):
         ta, tb = confgen.gen_tables(rng, 300, 80, null_p=0.2, kr=90, wide_str=True)
         bases.append({"tables": [ta, tb], "queries": confgen.gen_queries(rng, ta, tb, BIG_KINDS)})
     for _ in range(ctx.n(1, 3)):
-        ta, tb = confgen.gen_tables(rng, ctx.n(1000, 3000), ctx.n(250, 800), null_p=0.15, kr=300, wide_str=True)
+        ta, tb = confgen.gen_tables(rng, ctx.n(1000, 1500), ctx.n(250, 400), null_p=0.15, kr=300, wide_str=True)
         bases.append({"tables": [ta, tb], "queries": confgen.gen_queries(rng, ta, tb, ctx.n(HUGE_KINDS, BIG_KINDS))})
     splits = {}
     def layout(bi, t):
